@@ -515,6 +515,9 @@ class C01(Check):
         # (built with the property module, `#print axioms` of every pin); when they do not, the property theorems still
         # stand on their own and the failure is reported in the evidence (pins_failed, untied_classes) — never silently
         self._pins = self.pins()
+        # (another process — a tool resetting lean/PoxModel/Generated with `git checkout` — may have replaced the file while
+        #  the pins were building; write it again so that the property build sees this tree's layouts)
+        changed = common.write_if_changed(path, text) or changed
         if self._pins.get("pins_ok"):
             self.extra_modules = list(type(self).extra_modules) + [self.PIN_MODULE]
             self.theorems = list(type(self).theorems) + self.PIN_THEOREMS
@@ -1189,18 +1192,18 @@ class C01(Check):
         if cls in SPEC_STATS_CODE:
             t = getattr(self.B.cls(cls), "_type", None)
             if t != SPEC_STATS_CODE[cls]: return "stats type of the class is %s, the standard says %d" % (t, SPEC_STATS_CODE[cls])
-        pre = obs.get("spec_pre")
-        if isinstance(pre, str) and not pre.startswith("!") and pre != obs["pack"]:
-            i = next((k for k in range(0, min(len(pre), len(obs["pack"])), 2) if pre[k:k + 2] != obs["pack"][k:k + 2]), min(len(pre), len(obs["pack"])))
-            return "bytes differ at offset %d from the standard's layout of the object as it was constructed (pack() changed a value it must not change)" % (i // 2)
         sp = obs.get("spec")
-        if sp is None: return None
+        if sp is None: sp = obs["pack"]
         if sp.startswith("!"):
             return "object does not have the fields of the standard's structure: %s" % sp[1:80]
         if sp != obs["pack"]:
             i = next((k for k in range(0, min(len(sp), len(obs["pack"])), 2) if sp[k:k + 2] != obs["pack"][k:k + 2]), min(len(sp), len(obs["pack"])))
             which = "Nicira extension" if cls in self.nxspec["layouts"] else "OpenFlow 1.0"
             return "bytes differ from the %s layout of this structure at offset %d" % (which, i // 2)
+        pre = obs.get("spec_pre")
+        if isinstance(pre, str) and not pre.startswith("!") and pre != obs["pack"]:
+            i = next((k for k in range(0, min(len(pre), len(obs["pack"])), 2) if pre[k:k + 2] != obs["pack"][k:k + 2]), min(len(pre), len(obs["pack"])))
+            return "bytes differ at offset %d from the standard's layout of the object as it was constructed (pack() changed a value it must not change)" % (i // 2)
         return None
 
     def spec_bytes(self, obj, constructed=False):
